@@ -70,7 +70,8 @@ def rand_outcome(rng, *, p_ok=0.2, p_exc=0.45, p_special=0.0, specials=("abort",
             name += "_exc"  # an application class deriving from the cancellation type AND from Exception
         return ["sp", name]
     r = rng.random()
-    hint = rng.choice([None, None, 0.5, 3.0]) if ra else None
+    # a hint of 0 ("Retry-After: 0": come back at once) is a hint like any other; so is an int; a negative one is the classifier's business
+    hint = rng.choice([None, None, None, None, 0.5, 0.5, 3.0, 3.0, 0, 0.0, 2, -1.0]) if ra else None
     if r < p_ok:
         return ["ok"]
     if r < p_ok + p_exc:
